@@ -226,6 +226,41 @@ class GreaterZero(Check):
         return [("one violation per set-up value that is present and not positive", Z(len(self.violations(result))) == want)]
 
 
+class MetadataBad(Check):
+    """check_metadata_bad: with both ROI sizes given, one violation per image-like feature (image, image_bg, mask)
+    and axis whose frame size differs from the ROI size; none otherwise"""
+    fn = "check_metadata_bad"
+    IMG = ("image", "image_bg", "mask")
+
+    def inputs(self, ctx):
+        self._shape = {}
+        feats = {}
+        for f in self.IMG:
+            sy, sx = ctx.int(f"frame_height_{f}", lo=0, inp=True), ctx.int(f"frame_width_{f}", lo=0, inp=True)
+            self._shape[f] = (sy, sx)
+            feats[f] = ctx.obj("ImgFeat", {"shape": (ctx.int(f"n_{f}", lo=0), sy, sx)}, name=f)
+        return {"self": self.mk(ctx, feats=feats)}
+
+    def ensures(self, ctx, old, a, result):
+        both = z3.And(_pres(ctx, "sec", "imaging").e, _pres(ctx, "cfg", "imaging:roi size x").e,
+                      _pres(ctx, "cfg", "imaging:roi size y").e)
+        want = Z(0)
+        per_key = {}
+        for ii, roi in enumerate(["roi size y", "roi size x"]):
+            for f in self.IMG:
+                bad = z3.And(both, _pres(ctx, "item", f).e,
+                             z3.ToReal(self._shape[f][ii].e) != _cfgval(ctx, "imaging", roi).e)
+                want = want + z3.If(bad, 1, 0)
+                per_key[roi] = per_key.get(roi, Z(0)) + z3.If(bad, 1, 0)
+        vio = self.violations(result)
+        posts = [("one violation per image-like feature and axis whose frame size contradicts the ROI size",
+                  Z(len(vio)) == want)]
+        for roi in per_key:
+            posts.append((f"the violations name the key '{roi}' once per contradicting feature",
+                          Z(len([c for c in vio if c.fields.get("cfg_key") == roi])) == per_key[roi]))
+        return posts
+
+
 class OwnOutput(Contract):
     """writer / export / CLI output passes check_dataset; copies get the same cues (bounded stand-in)"""
     path = CHK
@@ -239,10 +274,11 @@ class OwnOutput(Contract):
         raise Unsupported("whole-file behaviour of writer, CLI tools and all checks together")
 
 
-UNITS = [FeatIndex(), FeatureSize(), HasFluorescence(), FlNumChannels(), FlNumLasers(), GreaterZero(), OwnOutput()]
+UNITS = [FeatIndex(), FeatureSize(), HasFluorescence(), FlNumChannels(), FlNumLasers(), GreaterZero(), MetadataBad(),
+         OwnOutput()]
 TRUSTED = [Cue()]
 TRUSTED_BASE = ["numpy elementwise comparison and np.all (N-ELEMWISE, N-ALL)"]
-ASSUMPTIONS = ["checks not under contract: image size vs. ROI metadata, unknown features, missing mandatory metadata (table-driven), "
+ASSUMPTIONS = ["checks not under contract: unknown features, missing mandatory metadata (table-driven), "
                "external links, compression, choices, HDF5 attribute types -- exercised by the bounded stand-in only"]
 
 
